@@ -67,21 +67,32 @@ def _item_src(k, names):
     return "%s:%s%s" % (a, b, c)
 
 
-def typed_function(name, ctype, skel):
-    nargs = sum(1 for se in skel for k in se if k == "i") + sum(int(ch) for se in skel for k in se if k[0] == "s" for ch in k[1:])
-    args = ["v%d" % i for i in range(nargs)]
+MAXARGS = 9
+
+
+def nargs_of(skel):
+    return sum(1 for se in skel for k in se if k == "i") + sum(int(ch) for se in skel for k in se if k[0] == "s" for ch in k[1:])
+
+
+def typed_function(name, ctype, skel, nd):
+    """cdef function (no argument parsing code: keeps the modules small); called through a dispatcher"""
+    args = ["v%d" % i for i in range(nargs_of(skel))]
+    assert len(args) <= MAXARGS
     names = iter(args)
-    head = "def %s(%s a%s):" % (name, ctype, "".join(", Py_ssize_t %s" % a for a in args))
-    body = []
+    head = "cdef %s(%s a%s):" % (name, ctype, "".join(", Py_ssize_t %s" % a for a in args))
+    decl, body = [], []
     cur = "a"
     for lvl, se in enumerate(skel):
         ex = "%s[%s]" % (cur, ", ".join(_item_src(k, names) for k in se))
+        nd = ndim_after(nd, se)
         if lvl == len(skel) - 1:
             body.append("    return info(%s)" % ex)
         else:
             cur = "b%d" % (lvl + 1)
+            # declared: the type inferred for `b = a[::k]` with a contiguous `a` is the (wrong) contiguous one
+            decl.append("    cdef %s %s" % (TYPES[nd], cur))
             body.append("    %s = %s" % (cur, ex))
-    return head + "\n" + "\n".join(body) + "\n"
+    return head + "\n" + "\n".join(decl + body) + "\n"
 
 
 def const_function(name, ctype, item):
@@ -89,21 +100,69 @@ def const_function(name, ctype, item):
         return "" if v == NONE else str(v)
     a, b, c = item[1:4]
     ex = "%s:%s%s" % (lit(a), lit(b), (":" + lit(c)) if c != NONE else "")
-    return "def %s(%s a):\n    return info(a[%s])\n" % (name, ctype, ex)
+    return "cdef %s(%s a):\n    return info(a[%s])\n" % (name, ctype, ex)
+
+
+def dispatcher(name, ctype, entries):
+    """entries: [(fid, function name, number of arguments)]"""
+    src = ["def %s(int fid, %s a%s):" % (name, ctype, "".join(", Py_ssize_t v%d=0" % i for i in range(MAXARGS)))]
+    for j, (fid, fn, n) in enumerate(entries):
+        src.append("    %s fid == %d:\n        return %s(a%s)" % ("if" if j == 0 else "elif", fid, fn, "".join(", v%d" % i for i in range(n))))
+    src.append("    raise LookupError(fid)\n")
+    return "\n".join(src)
 
 
 MODULE_HEAD = r'''# cython: language_level=3
 import numpy as np
 import json
 
+cdef class Exporter:
+    """a buffer with exactly the offset, shape and strides of the model's input view (NumPy's own buffer
+    export normalises the strides of arrays it flags as contiguous, i.e. of empty arrays and extent-1 axes)"""
+    cdef object base
+    cdef size_t addr
+    cdef Py_ssize_t shp[3]
+    cdef Py_ssize_t strd[3]
+    cdef int nd
+    cdef Py_ssize_t nbytes
+
+    def __init__(self, base, Py_ssize_t off, shape, strides):
+        cdef Py_ssize_t n = 8
+        cdef size_t start = base.__array_interface__["data"][0]
+        self.base = base
+        self.addr = start + <size_t>(off * 8)
+        self.nd = len(shape)
+        for i in range(self.nd):
+            self.shp[i] = shape[i]
+            self.strd[i] = strides[i] * 8
+            n *= shape[i]
+        self.nbytes = n
+
+    def __getbuffer__(self, Py_buffer *buf, int flags):
+        buf.buf = <void *>self.addr
+        buf.obj = self
+        buf.len = self.nbytes
+        buf.itemsize = 8
+        buf.readonly = 0
+        buf.ndim = self.nd
+        buf.format = b"l"
+        buf.shape = self.shp
+        buf.strides = self.strd
+        buf.suboffsets = NULL
+        buf.internal = NULL
+
+    def __releasebuffer__(self, Py_buffer *buf):
+        pass
+
 def info(x):
-    """observation: what NumPy sees through the buffer protocol + the object's own shape/strides"""
+    """observation: what NumPy sees through the buffer protocol + the object's own shape/strides
+    (strides in elements; 0 for an axis of extent 0, whose stride is not demanded)"""
     if isinstance(x, (int, np.integer)):
         return json.dumps([[], [], [int(x)], [], []])
     m = np.asarray(x)
     isz = m.itemsize
-    return json.dumps([list(m.shape), [s // isz for s in m.strides], m.ravel().tolist(),
-                       list(x.shape), [s // isz for s in x.strides]])
+    return json.dumps([list(m.shape), [s // isz if n else 0 for s, n in zip(m.strides, m.shape)], m.ravel().tolist(),
+                       list(x.shape), [s // isz if n else 0 for s, n in zip(x.strides, x.shape)]])
 
 def ob1(long[:] a, tuple es):
     r = <object>a
@@ -133,22 +192,38 @@ def ob3(long[:, :, :] a, tuple es):
 
 PRELUDE = r'''
 import numpy as np
-_bases = {}
-def A(lens, lays):
-    """the input buffer of the model: every axis of extent n lives in 2n+4 slots of a C-ordered base"""
+INPUTS = __INPUTS__
+_in = {}
+def _mk(lens, lays):
     key = (lens, lays)
-    if key not in _bases:
-        spans = [2 * n + 4 for n in lens]
-        base = np.arange(int(np.prod(spans)), dtype=np.int64).reshape(spans)
-        sl = tuple(slice(2, 2 + n) if l == "c" else slice(2, 2 + 2 * n, 2) if l == "s2" else slice(n + 1, 1, -1)
-                   for n, l in zip(lens, lays))
-        _bases[key] = (base, base[sl])
-    return _bases[key][1]
+    if key not in _in:
+        rec = INPUTS["%r|%r" % (list(lens), list(lays))]
+        base = np.arange(rec["base"], dtype=np.int64)
+        # exactly the model's view; NumPy validates that it lies inside `base`
+        arr = np.ndarray(shape=tuple(rec["shape"]), dtype=np.int64, buffer=base, offset=rec["off"] * 8,
+                         strides=tuple(s * 8 for s in rec["strides"]))
+        _in[key] = (base, arr, Exporter(base, rec["off"], rec["shape"], rec["strides"]))
+    return _in[key]
 
-def in_ref(arr, lens, lays):
-    base = _bases[(lens, lays)][0]
-    off = (arr.__array_interface__["data"][0] - base.__array_interface__["data"][0]) // 8
-    return json.dumps([off, list(arr.shape), [s // 8 for s in arr.strides], arr.ravel().tolist(), int(base.size)])
+def A(lens, lays):
+    return _mk(lens, lays)[1]
+
+def X(lens, lays):
+    return _mk(lens, lays)[2]
+
+def in_ref(lens, lays):
+    """the same buffer built by NumPy's own slicing of a C-ordered padded base (every axis of extent n in 2n+4 slots)"""
+    base, arr, exporter = _mk(lens, lays)
+    big = base.reshape([2 * n + 4 for n in lens])
+    nat = big[tuple(slice(2, 2 + n) if l == "c" else slice(2, 2 + 2 * n, 2) if l == "s2" else slice(n + 1, 1, -1)
+                    for n, l in zip(lens, lays))]
+    off = (nat.__array_interface__["data"][0] - base.__array_interface__["data"][0]) // 8
+    m = memoryview(exporter)
+    same = (list(nat.shape) == list(arr.shape) and nat.tolist() == arr.tolist()
+            and list(m.shape) == list(arr.shape) and list(m.strides) == list(arr.strides) and m.tolist() == arr.tolist()
+            and (0 in lens or (off == (arr.__array_interface__["data"][0] - base.__array_interface__["data"][0]) // 8
+                               and nat.strides == arr.strides)))
+    return json.dumps([bool(same), list(arr.shape), [s // 8 for s in arr.strides], arr.ravel().tolist(), int(base.size)])
 
 def np_ref(arr, es):
     r = arr
@@ -156,12 +231,17 @@ def np_ref(arr, es):
         r = r[e]
     return info(r)
 
-def mv_ref(arr, es):
-    r = memoryview(arr)
+def mv_ref(exporter, es):
+    r = memoryview(exporter)
     for e in es:
         r = r[e]
     return info(r)
 '''
+
+
+def prelude(inputs):
+    table = {"%r|%r" % (list(k[0]), list(k[1])): {f: rec[f] for f in ("off", "shape", "strides", "base")} for k, rec in inputs.items()}
+    return PRELUDE.replace("__INPUTS__", repr(table))
 
 
 # ---------------------------------------------------------------- python-side rendering of a case
@@ -188,8 +268,8 @@ def hist_py(hist, force_tuple=False):
     return {"py": "(" + "".join(expr_py(e, force_tuple) + "," for e in hist) + ")"}
 
 
-def arr_py(lens, lays):
-    return {"py": "A(%r,%r)" % (tuple(lens), tuple(lays))}
+def arr_py(lens, lays, exporter=False):
+    return {"py": "%s(%r,%r)" % ("X" if exporter else "A", tuple(lens), tuple(lays))}
 
 
 def expr_text(hist):
@@ -206,6 +286,7 @@ def expr_text(hist):
 def obs_string(err, shape, strides, el):
     if err:
         return "E:" + err
+    assert all(s == 0 for s, n in zip(strides, shape) if n == 0)
     return json.dumps([list(shape), list(strides), list(el), list(shape), list(strides)])
 
 
